@@ -187,3 +187,42 @@ Definition tensor_train_matrix_calls (tshape : list nat) (spec : rspec) (c : Q) 
   if negb (n * 2 =? length tshape) then Err
   else if n =? 1 then Ok []
   else tensor_train_calls (map (fun p => fst p * snd p) (combine (firstn n tshape) (skipn n tshape))) spec c.
+
+(* ------------------------------------------------------------------ parafac2: the outer loop with respect to the projections *)
+(* state <- initialize_decomposition        init='svd': C from an SVD, then projections = _compute_projections ; random / user: as drawn / given
+   [nn_modes with a built-in init: clip; init='svd': projections = _compute_projections again]   [normalise if requested]
+   for iteration in range(n_iter_max):
+       absorb the weights into factors[1] ; line_iter = linesearch and iteration % 2 == 0 and iteration > 5
+       projections = _compute_projections(factors) ; factors = parafac_updates(projected tensor)
+       if line_iter: line_step: computes _compute_projections of the extrapolated factors and returns them if the error decreased, else the inputs
+       [normalise if requested] ; if tol and iteration >= 1 and <converged>: break
+   decisions: one pair (line search jump accepted, convergence test fired) per executed sweep. *)
+Section Parafac2.
+  Variable St : Type.
+  Variables (svd_init clip compute_proj absorb updates jump normalise : St -> St).
+  Variable discard : St -> St -> St.          (* a rejected line-search jump: the computed candidate is dropped, the iterate of the sweep is kept *)
+  Definition p2_sweep (nf line_iter accept : bool) (s : St) : St :=
+    let s1 := updates (compute_proj (absorb s)) in
+    let s2 := if line_iter then (let t := compute_proj (jump s1) in if accept then t else discard t s1) else s1 in
+    if nf then normalise s2 else s2.
+  Definition is_line_iter (linesearch : bool) (it : nat) : bool := linesearch && Nat.even it && (6 <=? it).
+  Fixpoint p2o_loop (nf tol_set linesearch : bool) (it fuel : nat) (decisions : list (bool * bool)) (s : St) : St :=
+    match fuel with
+    | O => s
+    | S fuel' =>
+        let d := hd (false, false) decisions in
+        let s1 := p2_sweep nf (is_line_iter linesearch it) (fst d) s in
+        if tol_set && (1 <=? it) && snd d then s1 else p2o_loop nf tol_set linesearch (S it) fuel' (tl decisions) s1
+    end.
+  Definition p2o_init (ik : init_kind) (nn_builtin nf : bool) (s0 : St) : St :=
+    let s1 := match ik with InitSvd => compute_proj (svd_init s0) | _ => s0 end in
+    let s2 := if nn_builtin then (match ik with InitSvd => compute_proj (clip s1) | InitRandom => clip s1 | InitUser => s1 end) else s1 in
+    if nf then normalise s2 else s2.
+  Definition p2o_run (ik : init_kind) (nn_builtin nf tol_set linesearch : bool) (n : nat) (decisions : list (bool * bool)) (s0 : St) : St :=
+    p2o_loop nf tol_set linesearch 0 n decisions (p2o_init ik nn_builtin nf s0).
+End Parafac2.
+
+(* the run on a call counter: (number of _compute_projections calls so far, index of the call whose output is the current `projections`; 0 = the initial ones) *)
+Definition p2o_trace (ik : init_kind) (nn_builtin nf tol_set linesearch : bool) (n : nat) (decisions : list (bool * bool)) : nat * nat :=
+  p2o_run (nat * nat) (fun s => s) (fun s => s) (fun s => (S (fst s), S (fst s))) (fun s => s) (fun s => s) (fun s => s) (fun s => s)
+          (fun t s1 => (fst t, snd s1)) ik nn_builtin nf tol_set linesearch n decisions (0, 0).
